@@ -49,6 +49,8 @@ pub struct RunOut {
     pub panic: Option<String>,
     pub events: Vec<Event>,
     pub obs: Option<Obs>,
+    pub icones: Vec<ConeSpec>,
+    pub equil: Option<(Vec<f64>, Vec<f64>, Vec<f64>, f64)>,
 }
 
 pub fn panic_msg(e: Box<dyn std::any::Any + Send>) -> String {
@@ -95,7 +97,7 @@ pub fn begin_event(run: usize, p: &Problem, st: &DefaultSettings<f64>, sym: bool
         "full": tolset(st.tol_gap_abs, st.tol_gap_rel, st.tol_feas, st.tol_infeas_abs, st.tol_ktratio),
         "reduced": tolset(st.reduced_tol_gap_abs, st.reduced_tol_gap_rel, st.reduced_tol_feas,
                           st.reduced_tol_infeas_abs, st.reduced_tol_ktratio),
-        "eps100": fj(f64::EPSILON * 100.0),
+        "eps100": fj(f64::EPSILON * 100.0), "tiny": fj(1e-300),
         "tol_feas100": fj(st.tol_feas * 100.0),
         "time_limit": fj(st.time_limit),
         "min_switch": fj(st.min_switch_step_length),
@@ -112,7 +114,31 @@ fn sigma_ok(alpha: f64, sigma: f64) -> bool {
     d <= 4.0 * f64::EPSILON * cube.abs().max(f64::MIN_POSITIVE) || (cube == sigma)
 }
 
-pub fn convert_events(evs: &[Event], st: &DefaultSettings<f64>) -> Vec<Value> {
+/// strict-interior margins of the internal iterate (s in int K, z in int K*) over the internal cone
+/// list: (min over nonnegative cones [exact], min over all other cones, both relative)
+pub fn iterate_margins(cones: &[ConeSpec], s: &[f64], z: &[f64]) -> [f64; 4] {
+    let mut out = [f64::INFINITY; 4];
+    let mut off = 0;
+    for c in cones {
+        let k = c.numel();
+        let (sv, zv) = (&s[off..off + k], &z[off..off + k]);
+        match c {
+            ConeSpec::Zero(_) => {}
+            ConeSpec::Nonneg(_) => {
+                out[0] = out[0].min(observer::margin(c, sv, false));
+                out[2] = out[2].min(observer::margin(c, zv, true));
+            }
+            _ => {
+                out[1] = out[1].min(observer::margin(c, sv, false));
+                out[3] = out[3].min(observer::margin(c, zv, true));
+            }
+        }
+        off += k;
+    }
+    out
+}
+
+pub fn convert_events(evs: &[Event], st: &DefaultSettings<f64>, icones: &[ConeSpec]) -> Vec<Value> {
     let mut out = vec![];
     for e in evs {
         let v = match e.name {
@@ -120,8 +146,12 @@ pub fn convert_events(evs: &[Event], st: &DefaultSettings<f64>) -> Vec<Value> {
             "LoopTop" => {
                 let f = &e.f;
                 let (dot_bz, dot_qx) = (f[21], f[22]);
+                let has_m = e.v.len() == 3 && icones.iter().map(|c| c.numel()).sum::<usize>() == e.v[1].len();
+                let mg = if has_m { iterate_margins(icones, &e.v[1], &e.v[2]) } else { [f64::INFINITY; 4] };
                 json!({"ev": "LoopTop", "iter": e.i[0], "e": {
-                    "valid": true,
+                    "valid": true, "has_margins": has_m,
+                    "smin_nn": fj(mg[0]), "smin_o": fj(mg[1]), "zmin_nn": fj(mg[2]), "zmin_o": fj(mg[3]),
+                    "interior_floor": fj(-1e-13),
                     "mu": fj(f[0]), "alpha": fj(f[1]), "alpha_zero": f[1] == 0.0, "sigma": fj(f[2]),
                     "cost_p": fj(f[3]), "cost_d": fj(f[4]), "res_p": fj(f[5]), "res_d": fj(f[6]),
                     "res_pinf": fj(f[7]), "res_dinf": fj(f[8]), "gap_abs": fj(f[9]), "gap_rel": fj(f[10]),
@@ -178,7 +208,7 @@ pub fn parse_print(buf: &str) -> Value {
             dashes += 1;
             continue;
         }
-        if t.starts_with("iter ") {
+        if t.starts_with("iter ") && t.contains("pcost") {
             if stage > 1 {
                 shape_ok = false;
             }
@@ -303,6 +333,9 @@ pub fn run_ipm(run: usize, p: &Problem, opts: &RunOpts) -> RunOut {
         }
         let sym = solver_is_symmetric(p);
         let pd = solver_allows_pd(p);
+        let icones: Vec<ConeSpec> = solver.data.cones.iter().map(ConeSpec::from_clarabel).collect();
+        let eq = (solver.data.equilibration.d.clone(), solver.data.equilibration.e.clone(),
+                  solver.data.equilibration.einv.clone(), solver.data.equilibration.c);
         verif::start();
         solver.solve();
         if opts.solve_twice {
@@ -322,21 +355,21 @@ pub fn run_ipm(run: usize, p: &Problem, opts: &RunOpts) -> RunOut {
             status: status_code(sol.status), iterations: sol.iterations, x: sol.x.clone(), s: sol.s.clone(),
             z: sol.z.clone(), obj: sol.obj_val, obj_d: sol.obj_val_dual, r_prim: sol.r_prim, r_dual: sol.r_dual,
             print, bound, tau_post: solver.variables.τ, kappa_post: solver.variables.κ,
-        }, evs, sym, pd)
+        }, evs, sym, pd, icones, eq)
     }));
     verif::set_script(vec![]);
     match res {
-        Ok((r, evs, sym, pd)) => {
+        Ok((r, evs, sym, pd, icones, eq)) => {
             let mut lines = vec![begin_event(run, p, &st, sym, pd)];
-            lines.extend(convert_events(&evs, &st));
+            lines.extend(convert_events(&evs, &st, &icones));
             let post = evs.iter().rev().find(|e| e.name == "PostSolution");
             let (d, o) = done_event(run, p, &st, &r, post);
             lines.push(d);
-            RunOut { lines, result: Some(r), panic: None, events: evs, obs: Some(o) }
+            RunOut { lines, result: Some(r), panic: None, events: evs, obs: Some(o), icones, equil: Some(eq) }
         }
         Err(e) => {
             let _ = verif::take();
-            RunOut { lines: vec![], result: None, panic: Some(panic_msg(e)), events: vec![], obs: None }
+            RunOut { lines: vec![], result: None, panic: Some(panic_msg(e)), events: vec![], obs: None, icones: vec![], equil: None }
         }
     }
 }
@@ -348,4 +381,106 @@ pub fn solver_is_symmetric(p: &Problem) -> bool {
 /// allows_primal_dual_scaling: every cone except generalised power cones
 pub fn solver_allows_pd(p: &Problem) -> bool {
     p.cones.iter().all(|c| !matches!(c, ConeSpec::GenPow(_, _)))
+}
+
+/// Budget-independence recording (C07): one long run plus runs with max_iter = k.
+/// Per pass the pair [iter, digest of (x,s,z,tau,kappa)] is logged; for the long run also the digest
+/// of what `unscale` must return for that iterate (normalised by tau and by kappa).
+pub fn budget_lines(run: usize, p: &Problem, kmax: u32) -> (Vec<Value>, Option<String>) {
+    let opts = RunOpts { detail: 1_000_000, ..Default::default() };
+    let long = run_ipm(run, p, &opts);
+    if let Some(m) = long.panic {
+        return (vec![json!({"ev": "Panic", "run": run, "msg": m})], None);
+    }
+    let lr = long.result.as_ref().unwrap();
+    let (d, e, einv, c) = long.equil.clone().unwrap();
+    let st = p.settings();
+    let internal_dims = long.events.iter().find(|e| e.name == "LoopTop").map(|e| (e.i[1] as usize, e.i[2] as usize));
+    let same_dims = internal_dims == Some((p.n(), p.m()));
+    let passes = |evs: &[Event]| -> Vec<Value> {
+        evs.iter().filter(|e| e.name == "LoopTop").map(|ev| {
+            let (x, s, z) = (&ev.v[0], &ev.v[1], &ev.v[2]);
+            let (tau, kappa) = (ev.f[19], ev.f[20]);
+            let ret = |scaleinv: f64| -> String {
+                let cinv = 1.0 / c;
+                let xr: Vec<f64> = (0..x.len()).map(|i| (x[i] * d[i]) * scaleinv).collect();
+                let zr: Vec<f64> = (0..z.len()).map(|i| (z[i] * e[i]) * (scaleinv * cinv)).collect();
+                let sr: Vec<f64> = (0..s.len()).map(|i| (s[i] * einv[i]) * scaleinv).collect();
+                digest(&[&xr, &sr, &zr])
+            };
+            json!({"iter": ev.i[0], "digest": digest(&[x, s, z, &[tau, kappa]]),
+                   "ret_tau": ret(1.0 / tau), "ret_kappa": ret(1.0 / kappa)})
+        }).collect()
+    };
+    let mut lines = vec![json!({"ev": "Long", "run": run, "passes": passes(&long.events),
+        "iterations": lr.iterations, "status": STATUS_NAMES[lr.status], "same_dims": same_dims,
+        "ret": digest(&[&lr.x, &lr.s, &lr.z]), "maxiter": st.max_iter})];
+    let top = lr.iterations.min(kmax);
+    for k in 0..=top {
+        let mut pk = p.clone();
+        pk.settings["max_iter"] = json!(k);
+        let sh = run_ipm(run, &pk, &opts);
+        match (&sh.result, &sh.panic) {
+            (Some(r), _) => lines.push(json!({"ev": "Short", "run": run, "k": k, "passes": passes(&sh.events),
+                "iterations": r.iterations, "status": STATUS_NAMES[r.status],
+                "ret": digest(&[&r.x, &r.s, &r.z])})),
+            (None, Some(m)) => lines.push(json!({"ev": "Panic", "run": run, "msg": m})),
+            _ => unreachable!(),
+        }
+    }
+    (lines, Some(STATUS_NAMES[lr.status].to_string()))
+}
+
+/// Same-object histories (C07/C05): solve, solve again, lower max_iter to k and solve again.
+/// Emits Long (first solve), Resolve (second solve: must be identical), Short (third, budget k).
+pub fn resolve_lines(run: usize, p: &Problem, k: u32) -> Vec<Value> {
+    let st = p.settings();
+    let P = p.P.to_clarabel();
+    let A = p.A.to_clarabel();
+    let cones = p.clarabel_cones();
+    verif::set_detail(1_000_000);
+    let res = catch_unwind(AssertUnwindSafe(|| {
+        let mut solver = DefaultSolver::new(&P, &p.q, &A, &p.b, &cones, st.clone());
+        let eq = (solver.data.equilibration.d.clone(), solver.data.equilibration.e.clone(),
+                  solver.data.equilibration.einv.clone(), solver.data.equilibration.c);
+        let mut outs = vec![];
+        for round in 0..3 {
+            if round == 2 {
+                solver.settings.max_iter = k;
+            }
+            verif::start();
+            solver.solve();
+            let evs = verif::take();
+            let sol = &solver.solution;
+            outs.push((evs, sol.status as usize, sol.iterations, digest(&[&sol.x, &sol.s, &sol.z])));
+        }
+        (outs, eq, solver.data.n, solver.data.m)
+    }));
+    let (outs, (d, e, einv, c), n_int, m_int) = match res {
+        Ok(v) => v,
+        Err(e) => return vec![json!({"ev": "Panic", "run": run, "msg": panic_msg(e)})],
+    };
+    let same_dims = n_int == p.n() && m_int == p.m();
+    let passes = |evs: &[Event]| -> Vec<Value> {
+        evs.iter().filter(|e| e.name == "LoopTop").map(|ev| {
+            let (x, s, z) = (&ev.v[0], &ev.v[1], &ev.v[2]);
+            let (tau, kappa) = (ev.f[19], ev.f[20]);
+            let ret = |scaleinv: f64| -> String {
+                let cinv = 1.0 / c;
+                let xr: Vec<f64> = (0..x.len()).map(|i| (x[i] * d[i]) * scaleinv).collect();
+                let zr: Vec<f64> = (0..z.len()).map(|i| (z[i] * e[i]) * (scaleinv * cinv)).collect();
+                let sr: Vec<f64> = (0..s.len()).map(|i| (s[i] * einv[i]) * scaleinv).collect();
+                digest(&[&xr, &sr, &zr])
+            };
+            json!({"iter": ev.i[0], "digest": digest(&[x, s, z, &[tau, kappa]]),
+                   "ret_tau": ret(1.0 / tau), "ret_kappa": ret(1.0 / kappa)})
+        }).collect()
+    };
+    let mut lines = vec![];
+    for (round, (evs, status, iters, ret)) in outs.iter().enumerate() {
+        let name = ["Long", "Resolve", "Short"][round];
+        lines.push(json!({"ev": name, "run": run, "k": k, "passes": passes(evs), "iterations": iters,
+            "status": STATUS_NAMES[*status], "same_dims": same_dims, "ret": ret, "maxiter": st.max_iter}));
+    }
+    lines
 }
